@@ -439,10 +439,21 @@ Every failed lookup is Python's `KeyError`. -/
 def resolveRef (g : Graph) (ctx : String) (r : DocRef) : Except Err (List Id × List Id) :=
   if r.tag == "field" then
     match splitFirst '.' r.val with
-    | some (typeName, _) =>
-      match g.typeByName ctx typeName with
-      | some t => .ok ([t], [])
-      | none => .error (.keyError typeName)
+    | some (first, rest) =>
+      -- `namespace.type.field` when there is a second dot, else `type.field` in the namespace of the doc
+      let (nsName, typeName) := match splitFirst '.' rest with
+        | some (t, _) => (first, t)
+        | none => (ctx, first)
+      match g.ns? nsName with
+      | none => .error (.keyError nsName)
+      | some _ =>
+        -- an alias of a struct or union is handed to the walk, which follows it to its target
+        match g.aliasByName nsName typeName with
+        | some al => .ok ([al], [])
+        | none =>
+          match g.typeByName nsName typeName with
+          | some t => .ok ([t], [])
+          | none => .error (.keyError typeName)
     | none => .ok ([], [])
   else if r.tag == "route" then
     let (nsName, val) := match splitFirst '.' r.val with
@@ -523,46 +534,33 @@ def Item.key : Item → Item
   | .node i => .node i
   | .field o f _ => .field o f ""
 
-/-- The calls made by one invocation on an unseen argument, in call order, and the routes added to
-`output_routes`. The docs are parsed here (Python parses them between the calls; a `KeyError` aborts
-the whole filter in both). -/
-def expand (g : Graph) : Item → Except Err (List Item × List Id)
+/-- The calls made by one invocation on an unseen argument, in call order. The docs are parsed here (Python
+parses them between the calls; a `KeyError` aborts the whole filter in both). A route that a doc refers to is
+walked like any other item (`_find_route_dependencies`: the route is kept, its signature and its own doc are
+walked); a struct or union walks its OWN fields - the inherited ones are reached, in the namespace that
+declares them, through the parent. -/
+def expand (g : Graph) : Item → Except Err (List Item)
   | .node id =>
     match g.node? id with
     | none => .error (.dangling id)
     | some nd =>
-      match nd.kind with
-      | .route => .error (.dangling id)
-      | .alias =>
-        match parseDocs g nd.ns nd.docRefs with
-        | .error e => .error e
-        | .ok (ts, rts) =>
-          match routesIo g rts with
-          | .error e => .error e
-          | .ok io => .ok ((nd.target.refs ++ ts ++ io).map .node, rts)
-      | _ =>
-        match allFields g id with
-        | .error e => .error e
-        | .ok fs =>
-          match parseDocs g nd.ns nd.docRefs with
-          | .error e => .error e
-          | .ok (ts, rts) =>
-            match routesIo g rts with
-            | .error e => .error e
-            | .ok io =>
-              .ok (fs.map (fun of => Item.field of.1 of.2 nd.ns)
-                   ++ (nd.parent.toList ++ ts ++ io
-                       ++ (if nd.kind == .struct then nd.subtypes else [])).map .node, rts)
+      match parseDocs g nd.ns nd.docRefs with
+      | .error e => .error e
+      | .ok (ts, rts) =>
+        match nd.kind with
+        | .route => .ok ((nd.arg.refs ++ nd.result.refs ++ nd.error.refs ++ ts ++ rts).map .node)
+        | .alias => .ok ((nd.target.refs ++ ts ++ rts).map .node)
+        | _ =>
+          .ok (nd.fields.map (fun f => Item.field id f nd.ns)
+               ++ (nd.parent.toList ++ ts ++ rts
+                   ++ (if nd.kind == .struct then nd.subtypes else [])).map .node)
   | .field _ f ctx =>
     match parseDocs g ctx f.docRefs with
     | .error e => .error e
-    | .ok (ts, rts) =>
-      match routesIo g rts with
-      | .error e => .error e
-      | .ok io => .ok ((f.ty.refs ++ ts ++ io).map .node, rts)
+    | .ok (ts, rts) => .ok ((f.ty.refs ++ ts ++ rts).map .node)
 
 structure St where
-  /-- `seen` (keys) -/
+  /-- `seen` (keys); for a route: its membership in `output_routes` -/
   seen : List Item := []
   /-- `output_types`, all namespaces, in order of discovery -/
   types : List Id := []
@@ -571,17 +569,19 @@ structure St where
 deriving Repr, Inhabited
 
 /-- the effect of one invocation on an unseen argument: `seen.add(x)`, `output_types[..].append(x)` for a
-struct or union, `output_routes[..].add(route)` for the routes its docs mention -/
-def St.visit (g : Graph) (st : St) (it : Item) (rts : List Id) : St :=
+struct or union, `output_routes[..].add(route)` for a route -/
+def St.visit (g : Graph) (st : St) (it : Item) : St :=
   { seen := it.key :: st.seen
     types := match it with
       | .node id => if g.isTypeId id then st.types ++ [id] else st.types
       | .field .. => st.types
-    routes := st.routes ++ rts }
+    routes := match it with
+      | .node id => if g.isRouteId id then st.routes ++ [id] else st.routes
+      | .field .. => st.routes }
 
-/-- The recursion of `_find_dependencies_recursive` with its call stack made explicit: the pending
-calls, innermost first. A call on a seen argument returns at once; otherwise the argument is marked
-and its calls are made before the pending ones. `fuel` bounds the number of calls. -/
+/-- The recursion of `_find_dependencies_recursive` / `_find_route_dependencies` with its call stack made
+explicit: the pending calls, innermost first. A call on a seen argument returns at once; otherwise the
+argument is marked and its calls are made before the pending ones. `fuel` bounds the number of calls. -/
 def dfs (g : Graph) : Nat → List Item → St → Except Err St
   | _, [], st => .ok st
   | 0, _ :: _, _ => .error .recursion
@@ -590,7 +590,7 @@ def dfs (g : Graph) : Nat → List Item → St → Except Err St
     else
       match expand g it with
       | .error e => .error e
-      | .ok (kids, rts) => dfs g fuel (kids ++ rest) (st.visit g it rts)
+      | .ok kids => dfs g fuel (kids ++ rest) (st.visit g it)
 
 /-- size of the dump: bounds the number of distinct arguments and the calls one invocation makes -/
 def Graph.weight (g : Graph) : Nat :=
@@ -629,42 +629,59 @@ def canonicalRoutes (g : Graph) : List (String × List String) → Except Err (L
     | .error e, _ => .error e
     | _, .error e => .error e
 
-/-- starting data types contributed by the routes of one whitelisted namespace; also the ids of the
-whitelisted routes -/
-def routeSeeds (g : Graph) (ns : String) : List (String × Nat) → Except Err (List Id × List Id)
-  | [] => .ok ([], [])
+/-- A doc read while the starting points are collected (`add_doc_refs`): the data types it refers to and the
+routes it refers to (walked after all the data types). -/
+structure Seeds where
+  types : List Id := []
+  docRoutes : List Id := []
+  /-- the whitelisted routes -/
+  ids : List Id := []
+deriving Repr, Inhabited
+
+def Seeds.append (a b : Seeds) : Seeds :=
+  { types := a.types ++ b.types, docRoutes := a.docRoutes ++ b.docRoutes, ids := a.ids ++ b.ids }
+
+def docSeeds (g : Graph) (ns : String) (refs : List DocRef) : Except Err Seeds :=
+  match parseDocs g ns refs with
+  | .error e => .error e
+  | .ok (ts, rts) => .ok { types := ts, docRoutes := rts }
+
+/-- starting points contributed by the routes of one whitelisted namespace: the signature of each route and
+what its doc refers to; also the ids of the whitelisted routes -/
+def routeSeeds (g : Graph) (ns : String) : List (String × Nat) → Except Err Seeds
+  | [] => .ok {}
   | (name, v) :: rest =>
     match g.routeByName ns name v with
     | none => .error (.assertion ("Route " ++ name ++ " is not defined!"))
     | some rt =>
       match routeIo g rt, g.node? rt with
       | .ok io, some nd =>
-        match parseDocTypes g ns nd.docRefs with
+        match docSeeds g ns nd.docRefs with
         | .error e => .error e
-        | .ok dts =>
+        | .ok ds =>
           match routeSeeds g ns rest with
           | .error e => .error e
-          | .ok (ts, ids) => .ok (io ++ dts ++ ts, rt :: ids)
+          | .ok more => .ok (({ types := io, ids := [rt] } : Seeds).append (ds.append more))
       | .error e, _ => .error e
       | _, none => .error (.dangling rt)
 
 /-- "Parse the route whitelist and populate any starting data types" -/
-def routeWhitelistSeeds (g : Graph) : List (String × List (String × Nat)) → Except Err (List Id × List Id)
-  | [] => .ok ([], [])
+def routeWhitelistSeeds (g : Graph) : List (String × List (String × Nat)) → Except Err Seeds
+  | [] => .ok {}
   | (ns, reprs) :: rest =>
     match g.ns? ns with
     | none => .error (.assertion ("Namespace " ++ ns ++ " is not defined!"))
     | some n =>
-      match parseDocTypes g ns n.docRefs with
+      match docSeeds g ns n.docRefs with
       | .error e => .error e
       | .ok nsDoc =>
         if reprs.contains ("*", 1) then .error (.assertion "'*' not in route_reprs") else
         match routeSeeds g ns reprs with
         | .error e => .error e
-        | .ok (ts, ids) =>
+        | .ok here =>
           match routeWhitelistSeeds g rest with
           | .error e => .error e
-          | .ok (ts', ids') => .ok (nsDoc ++ ts ++ ts', ids ++ ids')
+          | .ok more => .ok (nsDoc.append (here.append more))
 
 def typeSeeds (g : Graph) (ns : String) : List String → Except Err (List Id)
   | [] => .ok []
@@ -677,17 +694,17 @@ def typeSeeds (g : Graph) (ns : String) : List String → Except Err (List Id)
       | .ok ids => .ok (id :: ids)
 
 /-- "Parse the datatype whitelist and populate any starting data types" -/
-def datatypeWhitelistSeeds (g : Graph) : List (String × List String) → Except Err (List Id)
-  | [] => .ok []
+def datatypeWhitelistSeeds (g : Graph) : List (String × List String) → Except Err Seeds
+  | [] => .ok {}
   | (ns, names) :: rest =>
     match g.ns? ns with
     | none => .error (.assertion ("Namespace " ++ ns ++ " is not defined!"))
     | some n =>
-      match parseDocTypes g ns n.docRefs with
+      match docSeeds g ns n.docRefs with
       | .error e => .error e
       | .ok nsDoc =>
         match typeSeeds g ns names, datatypeWhitelistSeeds g rest with
-        | .ok a, .ok b => .ok (nsDoc ++ a ++ b)
+        | .ok a, .ok more => .ok (nsDoc.append (({ types := a } : Seeds).append more))
         | .error e, _ => .error e
         | _, .error e => .error e
 
@@ -751,11 +768,12 @@ def whitelistFilter (g : Graph) (wl : Whitelist) : Except Err Filtered :=
   | .ok canon =>
     match routeWhitelistSeeds g canon with
     | .error e => .error e
-    | .ok (rts, wlRoutes) =>
+    | .ok rs =>
       match datatypeWhitelistSeeds g wl.datatypes with
       | .error e => .error e
-      | .ok dts =>
-        let start := rts ++ dts
+      | .ok ds =>
+        -- `_find_dependencies(route_data_types, doc_routes)`: the data types, then the routes the starting docs refer to
+        let start := rs.types ++ ds.types ++ (rs.docRoutes ++ ds.docRoutes)
         match dfs g (g.dfsFuel start.length) (start.map .node) {} with
         | .error e => .error e
         | .ok st =>
@@ -763,7 +781,7 @@ def whitelistFilter (g : Graph) (wl : Whitelist) : Except Err Filtered :=
           | .error e => .error e
           | .ok als =>
             .ok { types := st.types
-                  routes := addAll [] (wlRoutes ++ st.routes)
+                  routes := addAll [] (rs.ids ++ st.routes)
                   aliases := als
                   seen := st.seen
                   start := start }
@@ -787,20 +805,14 @@ def parsesTo (g : Graph) (ctx : String) (refs : List DocRef) (want : List Id × 
 
 /-- Every doc string the walk can parse yields, in the namespace context the walk uses, what the
 references denote in the namespace that declares them: type and alias docs, namespace docs, route
-docs, and every field of `all_fields` of every type read in that type's namespace.
-(False e.g. for an inherited field whose doc mentions `:type:`Q`` and a child in another
-namespace, or for `:field:` through an alias / an imported namespace.) -/
+docs, and the docs of the own fields of every type (an inherited field is read with its owner).
+(The compiler refuses references that denote nothing, so this holds of every dump; it used to fail for an
+inherited field whose doc mentions `:type:`Q`` with a child in another namespace and for `:field:`
+through an alias / an imported namespace, until the walk was repaired.) -/
 def docsAgree (g : Graph) : Bool :=
   g.nodes.all (fun n =>
     parsesTo g n.ns n.docRefs (specDocs g n.ns n.docRefs)
-    && (if n.isType then
-          match allFields g n.id with
-          | .ok fs => fs.all (fun of =>
-              match g.node? of.1 with
-              | some o => parsesTo g n.ns of.2.docRefs (specDocs g o.ns of.2.docRefs)
-              | none => false)
-          | .error _ => false
-        else true))
+    && n.fields.all (fun f => parsesTo g n.ns f.docRefs (specDocs g n.ns f.docRefs)))
   && g.namespaces.all (fun n => parsesTo g n.name n.docRefs (specDocs g n.name n.docRefs))
 
 /-- `unwrap(data_type)`: strip `Nullable`, follow aliases; the user type reached -/
